@@ -1,6 +1,6 @@
 # Drives the REAL rand_burst_gen.RandBurstGen (argv[1] = toolkit directory) with the line protocol of
 # lean/OsmoVerif/Driver/RandBurst.lean.  The module's random source (`rand_burst_gen.random`) is replaced from outside by a
-# scripted one that hands out the draws of the request in call order: randint(a, b) pops a value (returned as it is),
+# scripted one (ONE RandBurstGen object serves all requests) that hands out the draws of the request in call order: randint(a, b) pops a value (returned as it is),
 # choice(seq) pops an index k and returns seq[k % len(seq)].  A request whose draws run dry answers `dry`.
 #   rb.nb|rb.sb|rb.ab TSC DRAWS -> ok BITS REST     rb.fb | rb.db -> ok BITS 0
 import sys, types
@@ -38,8 +38,13 @@ def bits(b):
     return "".join(str(x) if 0 <= x <= 9 else "x" for x in b)
 
 
+# ONE generator object lives through the whole request stream (as in the tools that use it): whatever it remembers from
+# earlier bursts must not influence later ones
+G = rand_burst_gen.RandBurstGen()
+
+
 def handle(tok):
-    g = rand_burst_gen.RandBurstGen()
+    g = G
     if tok[0] in ("rb.nb", "rb.sb", "rb.ab"):
         tsc = None if tok[1] == "-" else gsm_shared.TrainingSeqGMSK[tok[1]]
         sc = Script([] if tok[2] == "-" else [int(x) for x in tok[2].split(",")])
